@@ -17,7 +17,7 @@ BUDGET = {
     "C05": ((2, 2), (32, 12)),
     "C19": ((2, 2), (32, 12)),
     "C04": ((2, 2), (32, 12)),
-    "C14": ((2, 4), (24, 16)),
+    "C14": ((8, 8), (64, 32)),
 }
 
 BAD = re.compile(r"error: Undefined Behavior|Data race detected|error: memory leaked|error: the evaluated program|E2-VIOLATION|error: unsupported operation|panicked at")
